@@ -12,7 +12,7 @@ import (
 func TestC06(t *testing.T) {
 	vx.Check(t, vx.Prop[mcase]{
 		ID: "C06",
-		Rule: "2 chains (optionally asymmetric ids) with v1-unordered, v1-ordered, v2 and v2-alias links and twin packets on the sibling link; honest prefix (4-6 sends, receives with success / error / " +
+		Rule: "2 chains (optionally asymmetric ids) with v1-unordered, v1-ordered, v2 and v2-alias links and twin packets on the sibling link; honest prefix (5-7 sends, receives with success / error / " +
 			"async-then-written acks, 0-1 acks), then per trial a MsgAcknowledgement valid at that moment gets 1-3 catalogue mutations (ack bytes / app-ack list, packet fields, proof, proof height, environment) " +
 			"and is submitted before the unmutated control; non-trivial = at least one model-forbidden mutated message whose control was accepted (or whose honest form was valid before an environment mutation); " +
 			"distinct by (link kind, mutation labels per trial)",
